@@ -14,6 +14,7 @@
 #include <mutex>
 #include <optional>
 #include <queue>
+#include <vector>
 
 
 namespace cocls {
@@ -307,16 +308,25 @@ public:
                     promise();
                 }
                 this->_queue.pop();
-                if (!_blocked.empty()) {
-                    auto front = std::move(_blocked.front());
-                    this->_queue.push(std::move(front.first));
-                    auto p = std::move(front.second);
+                //the item is delivered: no exception may leave pop() any more, it would destroy
+                //the consumer's future together with the item. A blocked producer whose item
+                //refuses to be moved into the queue is failed with that exception (the item is
+                //withdrawn, as unblock_push() does) and the next one is admitted instead
+                cocls::promise<void> admitted;
+                std::vector<std::pair<cocls::promise<void>, std::exception_ptr> > failed;
+                while (!admitted && !_blocked.empty()) {
+                    auto &front = _blocked.front();
+                    try {
+                        this->_queue.push(std::move(front.first));
+                        admitted = std::move(front.second);
+                    } catch (...) {
+                        failed.emplace_back(std::move(front.second), std::current_exception());
+                    }
                     _blocked.pop();
-                    lk.unlock();
-                    p();
-                } else {
-                    lk.unlock();
                 }
+                lk.unlock();
+                for (auto &f: failed) f.first.set_exception(f.second);
+                admitted();
             }
         };
     }
